@@ -265,8 +265,10 @@ impl AdvancePositions {
 
         let num_opens = positions.len();
 
-        // Build IB: set bit at each unique position
-        let ib_num_words = text_len.div_ceil(64);
+        // Build IB: set bit at each unique position.
+        // A node can start at text_len (e.g. an implicit null at end of input), so
+        // allocate one bit beyond text_len — as CompactEndPositions::try_build does.
+        let ib_num_words = (text_len + 1).div_ceil(64);
         let mut ib_words = vec![0u64; ib_num_words];
 
         // Build advance bitmap: set bit when position changes
